@@ -113,6 +113,10 @@ class Prop(PropBase):
                    "a": [hx(float(rng.randint(-10**6, 10**6))), hx(rng.uniform(-0.5, 0.5))], "imag_a": rng.random() < 0.4,
                    "f": hx(rng.choice([2.0, -3.0, 0.5, 7.0, -0.25])), "imag_f": rng.random() < 0.4, "imag_q": rng.random() < 0.5,
                    "b": [hx(float(rng.randint(-1000, 1000))), hx(rng.uniform(-0.5, 0.5))]}
+        # argument forms of the constructor, conversions and out= targets (each result against exact rationals)
+        for _ in range(60 if quick else 3000):
+            yield {"op": "forms", "a": [hx(float(rng.randint(-10**6, 10**6))), hx(rng.uniform(-0.5, 0.5))],
+                   "b": [hx(float(rng.randint(1, 1000))), hx(rng.uniform(-0.5, 0.5))]}
         ops = ["construct1", "construct2", "add", "radd", "sub", "rsub", "neg", "pos", "abs", "mul", "rmul", "div",
                "floordiv", "mod", "divmod", "trig"]
         kinds = ["pyint", "pyfloat", "npfloat64", "npfloat32", "npint64", "zerod", "nd", "list", "quantity", "phase", "imag"]
@@ -203,6 +207,8 @@ class Prop(PropBase):
                 s1, s2 = two_sum(a, b)
                 p1, p2 = two_product(a, b)
             return {"sum": [hx(float(s1)), hx(float(s2))], "prod": [hx(float(p1)), hx(float(p2))]}
+        if case["op"] == "forms":
+            return self._run_forms(case)
         if case["op"] == "outform":
             a0, a1, f = unhx(case["a"][0]), unhx(case["a"][1]), unhx(case["f"])
             b0, b1 = unhx(case["b"][0]), unhx(case["b"][1])
@@ -307,6 +313,93 @@ class Prop(PropBase):
         except Exception as e:
             return {"err": err_name(e)}
 
+    def _run_forms(self, case):
+        np, u, ph = self.np, self.u, self.ph
+        Phase = ph.Phase
+        a0, a1, b0, b1 = (unhx(x) for x in case["a"] + case["b"])
+        A, B = F(a0) + F(a1), F(b0) + F(b1)
+        bad = []
+
+        def val(p):
+            v = p.view(np.ndarray)
+            return F(float(v["int"])) + F(float(v["frac"]))
+
+        def is_phase(p, want, lab, tol=F(1, 2**50)):
+            if type(p) is not Phase:
+                bad.append(f"{lab}: {type(p).__name__}")
+            elif abs(val(p) - want) > tol * max(1, abs(want)):
+                bad.append(f"{lab}: value off by {float(abs(val(p) - want)):.3g}")
+            elif not (abs(float(p.view(np.ndarray)['frac'])) <= 0.5 and float(p.view(np.ndarray)['int']).is_integer()):
+                bad.append(f"{lab}: not normalised")
+
+        def raises(fn, lab):
+            try:
+                fn()
+                bad.append(f"{lab}: accepted")
+            except ValueError:
+                pass
+            except Exception as e:      # noqa
+                bad.append(f"{lab}: {type(e).__name__} instead of ValueError")
+        try:
+            pa, pb_ = Phase(a0, a1), Phase(b0, b1)
+            is_phase(Phase(a0, pb_), F(a0) + B, "Phase(float, Phase)")
+            is_phase(Phase(pa, b0), A + F(b0), "Phase(Phase, float)")
+            is_phase(Phase(pa, pb_), A + B, "Phase(Phase, Phase)")
+            is_phase(Phase(a0 * u.cycle, b1 * u.cycle), F(a0) + F(b1), "Phase(Quantity, Quantity)")
+            is_phase(Phase((a0 * 360.0) * u.deg), F(a0), "Phase(degrees)", F(1, 2**40))
+            c = Phase(pa)
+            if c is pa or np.shares_memory(c.view(np.ndarray), pa.view(np.ndarray)) or val(c) != A:
+                bad.append("Phase(p) is not an equal copy")
+            if Phase(pa, copy=False) is not pa:
+                bad.append("Phase(p, copy=False) copied")
+            raises(lambda: Phase(a0, 1j * b1), "Phase(real, imaginary)")
+            raises(lambda: Phase(1j * a0, b1), "Phase(imaginary, real)")
+            raises(lambda: Phase(b0 + 1j * b0), "Phase(mixed complex)")
+            raises(lambda: Phase(np.array([1j * b0, b0])), "Phase([imaginary, real])")
+            raises(lambda: Phase.from_angles(a0 * u.cycle, (1j * b1) * u.cycle), "from_angles(real, imaginary)")
+            # conversions
+            t = pa.to(u.cycle)
+            is_phase(t, A, "to(cycle)", F(0))
+            if t is pa:
+                bad.append("to(cycle) returned the object itself")
+            d = pa.to(u.deg)
+            if isinstance(d, Phase) or abs(F(float(d.value)) - 360 * A) > F(1, 2**45) * max(1, abs(360 * A)) or d.unit != u.deg:
+                bad.append(f"to(deg) = {d!r}")
+            for un, k in ((u.cycle, F(1)), (u.deg, F(360)), (None, F(1))):
+                v = pa.to_value(un) if un is not None else pa.to_value()
+                if abs(F(float(v)) - k * A) > F(1, 2**45) * max(1, abs(k * A)):
+                    bad.append(f"to_value({un}) = {v!r}")
+            # a Phase used only as the out= target
+            tgt = Phase(7.0, 0.125)
+            r = np.add(a0 * u.cycle, b1 * u.cycle, out=(tgt,))
+            if r is not tgt:
+                bad.append("np.add(q, q, out=phase) did not return the target")
+            is_phase(tgt, F(a0) + F(b1), "np.add(q, q, out=phase)")
+            qa, rp = np.zeros(()), Phase(0.0, 0.0)
+            r = np.divmod(pa, pb_, out=(qa, rp))
+            qx = A // B
+            if r[0] is not qa or r[1] is not rp or F(float(qa)) != qx:
+                bad.append(f"np.divmod(p, d, out=(q, r)): quotient {float(qa)} (exact {float(qx)}) or identities")
+            is_phase(rp, A - qx * B, "np.divmod(..., out=) remainder")
+            qa2 = np.zeros(())
+            if np.floor_divide(pa, pb_, out=(qa2,)) is not qa2 or F(float(qa2)) != qx:
+                bad.append("np.floor_divide(p, d, out=q)")
+            rp2 = Phase(0.0, 0.0)
+            if np.remainder(pa, pb_, out=(rp2,)) is not rp2:
+                bad.append("np.remainder(p, d, out=phase) identity")
+            is_phase(rp2, A - qx * B, "np.remainder(..., out=)")
+            # FractionalPhase: unit defaults and wrapping at half a cycle
+            fp = ph.FractionalPhase(a1)
+            if fp.unit != u.cycle or float(fp.value) != a1:
+                bad.append(f"FractionalPhase(x) = {fp!r}")
+            w = ph.FractionalPhase((b0 + 0.75) * u.cycle)
+            if abs(float(w.to_value(u.cycle)) + 0.25) > 1e-9:
+                bad.append(f"FractionalPhase(n + 0.75 cycle) = {w!r}")
+        except Exception as e:      # noqa
+            import traceback
+            bad.append("unexpected " + err_name(e) + " @ " + traceback.format_exc().strip().splitlines()[-3].strip()[:80])
+        return {"bad": bad}
+
     # ------------------------------------------------------------------ model
     def _kernel_call(self, case, code):
         """the day_frac call the Phase operation performs (mirror of the __array_ufunc__/__new__ branch)"""
@@ -345,7 +438,7 @@ class Prop(PropBase):
         return None
 
     def model_requests(self, case, code):
-        if case["op"] == "outform":
+        if case["op"] in ("outform", "forms"):
             return []
         if case["op"] == "eft":
             return [f"c07 eft {case['a']} {case['b']}"]
@@ -375,7 +468,7 @@ class Prop(PropBase):
         return out
 
     def agree(self, case, code, model):
-        if case["op"] == "outform":
+        if case["op"] in ("outform", "forms"):
             return True
         if case["op"] == "eft":
             # astropy's two_sum / two_product = the generic transliteration at hardware Float, bit for bit; the rational rn53
@@ -435,6 +528,8 @@ class Prop(PropBase):
         return None
 
     def spec_violation(self, case, code):
+        if case["op"] == "forms":
+            return "; ".join(code["bad"][:4]) or None
         if case["op"] == "outform":
             form = case["form"]
             A = F(unhx(case["a"][0])) + F(unhx(case["a"][1]))
@@ -551,6 +646,8 @@ class Prop(PropBase):
         return case
 
     def tags(self, case, code):
+        if case["op"] == "forms":
+            return ["forms"]
         if case["op"] == "outform":
             return ["outform:" + case["form"]]
         if case["op"] == "eft":
